@@ -171,6 +171,12 @@ def norm_cmp(atom: T, positive: bool = True):
     {Lt, LtE, Eq, NotEq}; `not (a > b)` and `a <= b` and `b >= a` coincide"""
     if atom.op == "not":
         return norm_cmp(atom.args[0], not positive)
+    if atom.op == "unop" and atom.args[0] in ("Invert", "Not"):
+        # ~(a < b) on boolean arrays / not (a < b): the element-wise negation
+        return norm_cmp(atom.args[1], not positive)
+    if is_call_to(atom, "numpy.logical_not", "numpy.invert") and \
+            len(atom.args[1]) == 1:
+        return norm_cmp(atom.args[1][0], not positive)
     if atom.op != "cmp":
         return None
     op, l, r = atom.args
